@@ -277,6 +277,48 @@ def check_auto_radius(out: Outcome, rng):
         out.nontrivial.add(('auto', json.dumps(sites.tolist()), name))
 
 
+def _helper_states(case, coords):
+    lat = np.array(case['lattice'], float)
+    T, A, _ = coords.shape
+    labels = case['labels']
+    traj = gem.make_traj(np.concatenate([coords, np.zeros((T, 1, 3)) + 0.031], axis=1), lat, ['Li'] * A + ['O'])
+    st = gem.make_sites(lat, np.array(case['sites'], float), labels=labels)
+    sr = dict(case['radius']) if case['mode'] == 'dict' else {'': float(case['radius'])}
+    from gemdat.transitions import _calculate_atom_states
+    with warnings.catch_warnings():
+        warnings.simplefilter('ignore')
+        diff = traj.filter('Li')
+        return (np.array(_calculate_atom_states(sites=st, trajectory=diff, site_radius=sr)),
+                np.array(_calculate_atom_states(sites=st, trajectory=diff, site_radius=sr, site_inner_fraction=case['inner_fraction'])))
+
+
+def check_long_run(out: Outcome, rng, rows=130_000):
+    """every frame is assigned on its own (GModel.Pipeline.statesOf is a map over the frames: C07Pipe.statesOf_append), so a run that
+    repeats a short run must repeat its states — with more than `rows` (frame, atom) rows, enough to cross the block / chunk
+    boundaries of any bulk implementation.  The short run itself is compared with the model by check_case."""
+    case = None
+    while case is None or case['mode'] == 'auto' or len(case['coords'][0]) < 2:
+        case = gen_case(rng, 6)
+    check_case(out, case, 'long-run-period')
+    coords = np.array(case['coords'], float)
+    T, A, _ = coords.shape
+    reps = -(-rows // (T * A)) + int(rng.integers(0, 7))
+    out.evaluations += 1
+    small_o, small_i = _helper_states(case, coords)
+    long_o, long_i = _helper_states(case, np.tile(coords, (reps, 1, 1)))
+    c = {**case, 'long_run_repeats': reps}
+    for nm, sm, lg in (('site-of-minimum-image-distance', small_o, long_o), ('inner-site-of-scaled-radius', small_i, long_i)):
+        want = np.tile(sm, (reps, 1))
+        if lg.shape != want.shape or not np.array_equal(lg, want):
+            bad = int(np.sum(lg != want)) if lg.shape == want.shape else -1
+            first = int(np.argwhere(lg != want)[0][0]) if bad > 0 else None
+            out.fail('property', nm, c, expected=f'the states of the {T}-frame run repeated {reps} times', observed=f'{bad} of {want.size} entries differ, first at frame {first}',
+                     note='long-run')
+            return
+    out.count('long-run-agrees')
+    out.nontrivial.add(('long', reps, T, A))
+
+
 def corpus():
     d = core.CORPUS / PID
     return [json.loads(p.read_text()) for p in sorted(d.glob('*.json'))] if d.exists() else []
@@ -291,6 +333,8 @@ def run(tier: str, seed: int, scale: int) -> Outcome:
         check_case(out, gen_case(rng, 8 if tier == 'quick' else 16), 'random')
     for _ in range((200 if tier == 'quick' else 2000) * scale):
         check_auto_radius(out, rng)
+    for k in range((2 if tier == 'quick' else 12) * scale):
+        check_long_run(out, rng, rows=130_000 if (tier == 'quick' or k % 4) else 1_100_000)
     return out
 
 
@@ -304,6 +348,12 @@ def replay(case):
     out = Outcome()
     if case.get('auto_radius'):
         return True, 'auto-radius cases: re-run ./check C02 quick with the recorded seed'
+    if case.get('long_run_repeats'):
+        coords = np.array(case['coords'], float)
+        reps = int(case['long_run_repeats'])
+        sm, lg = _helper_states(case, coords), _helper_states(case, np.tile(coords, (reps, 1, 1)))
+        ok = all(np.array_equal(l, np.tile(s_, (reps, 1))) for s_, l in zip(sm, lg))
+        return ok, ('long run repeats the states of its period' if ok else f'the run of {reps} repetitions does not repeat the states of its period')
     check_case(out, case, 'replay')
     fails = [f for f in out.failures if f.kind == 'property']
     text = '\n'.join(f'{f.clause}: expected {str(f.expected)[:200]} observed {str(f.observed)[:200]} {f.note}' for f in fails) or 'no failure'
@@ -323,6 +373,7 @@ SPEC = PropertySpec(
           '{1,0.75,0.5,0.25}; 2-6 frames x 1-3 atoms placed at 0-1.3 radii from a random periodic image of a site, 20% anywhere. '
           'states / inner_states of Trajectory.transitions_between_sites vs the Lean assignment by certified minimum-image distance '
           '(exact rationals of the very floats); decisions within 1e-3 A of a sphere surface are not compared; inner in {none, outer}; '
+          'long runs: a short run repeated to > 130 000 (thorough also > 1 100 000) (frame, atom) rows must repeat its states; '
           'automatic radius: 2r < smallest site separation OF THE SIMULATION CELL (the site structure carries a 3-6 % different '
           'reference cell every other time), value (a tie of separation and 4 x amplitude within 1e-9 only needs 2r <= separation), error branch. Non-trivial: an atom in range through a periodic image, '
           'one out of range, and a non-diagonal lattice matrix or a site on a face.'),
